@@ -191,7 +191,11 @@ def handle : Handler := fun op args impl =>
     let strace := ((if se0 then "err" else "ok") ++ "|" ++ render (obsSpec s0 probes0)) :: traceSpec s0 probes0 opl
     -- predicate: the implementation's observations equal the reference's, step by step, as far as
     -- the reference specifies them
-    let itrace := impl.splitOn ";"
+    -- the last record of the implementation's trace says whether the alignments handed to Append / Concat kept their
+    -- content and are independent of the receiver (`alias=ok`); it is not part of the step-by-step comparison
+    let itrace0 := impl.splitOn ";"
+    let aliasRec := (itrace0.getLast?.filter (·.startsWith "alias=")).getD "alias=ok"
+    let itrace := if (itrace0.getLast?.map (·.startsWith "alias=")).getD false then itrace0.dropLast else itrace0
     let cmp := (strace.zip itrace).all fun (a, b) => a == b
     let okLen := itrace.length ≥ strace.length
     let noPanic := !(itrace.contains "PANIC")
@@ -210,8 +214,9 @@ def handle : Handler := fun op args impl =>
         if !cmp then "fail:step" ++ toString firstDiff
         else if !noPanic && itrace.length ≤ strace.length then "fail:panic-step" ++ toString (itrace.length - 1)
         else if !okLen then "fail:trace-short"
+        else if aliasRec != "alias=ok" then "fail:" ++ (aliasRec.drop 6).toString
         else "pass"
-    some ⟨";".intercalate mtrace, verdict⟩
+    some ⟨";".intercalate (if mtrace.getLast? == some "PANIC" then mtrace else mtrace ++ ["alias=ok"]), verdict⟩
   | _, _ => none
 
 end Gv.Oracle.BagOps
